@@ -197,7 +197,13 @@ pub fn run(ctx: &Ctx, rep: &mut Report) {
             (b"eth".to_vec(), b"-1".to_vec()),
             (b"".to_vec(), b"eth-1".to_vec()),
         ];
-        while keys.len() < 6 {
+        // and a pair that collides when chain and id are joined with a delimiter
+        {
+            let d = *rng.pick(&[&b"_"[..], b"-", b":", b"/", b"\0", b"|"]);
+            keys.push(([b"net".to_vec(), d.to_vec(), b"2024".to_vec()].concat(), b"0xfeed-0".to_vec()));
+            keys.push((b"net".to_vec(), [b"2024".to_vec(), d.to_vec(), b"0xfeed-0".to_vec()].concat()));
+        }
+        while keys.len() < 8 {
             let k = (rng.pick(&CHAINS).to_vec(), rng.pick(&IDS).to_vec());
             if !keys.contains(&k) {
                 keys.push(k);
@@ -479,7 +485,7 @@ pub fn run(ctx: &Ctx, rep: &mut Report) {
         }
     }
     rep.notes.insert("required".into(), json!(REQUIRED));
-    rep.notes.insert("rule".into(), json!("universes of 50 operations over 6 (chain,id) keys whose concatenations collide, 2-3 contents per key; ops: single/batched honest approvals with in-batch duplicates, consumption in 9 variants (conforming, again, wrong caller, no/stranger/other-arguments authorisation, wrong source address, wrong payload hash, split variant), ledger advancement by 1 to 1 300 000 ledgers; after every op every key x content (and single-field variations) is queried; distinct = (op class, key status before, consumable, outcome)"));
+    rep.notes.insert("rule".into(), json!("universes of 50 operations over 8 (chain,id) keys whose concatenations collide (directly, or when joined with one of six delimiters), 2-3 contents per key; ops: single/batched honest approvals with in-batch duplicates, consumption in 9 variants (conforming, again, wrong caller, no/stranger/other-arguments authorisation, wrong source address, wrong payload hash, split variant), ledger advancement by 1 to 1 300 000 ledgers; after every op every key x content (and single-field variations) is queried; distinct = (op class, key status before, consumable, outcome)"));
 }
 
 fn dedup_keys(batch: &[MMessage]) -> usize {
